@@ -69,7 +69,7 @@ func runTerm(a *args, res *result) {
 			continue
 		}
 		r := newRng(a.seed, uint64(i)*8+1)
-		fam := i % 4
+		fam := i % 5
 		fp := newFP()
 		fp.add(uint64(fam), uint64(i))
 		cw0 := vshim.ReadCounters()
@@ -129,8 +129,10 @@ func runTerm(a *args, res *result) {
 				res.count("resizes_in_stress", out.growths+out.shrinks)
 				sweepCache(c, 700)
 			}
-		default: // (c) re-entrancy
+		case 3: // (c) re-entrancy
 			reentrancyCase(r, res, i)
+		default: // (b') one resize per round: nobody rescues a waiter that missed its wake-up
+			singleResizeRound(r, res, i)
 		}
 		if b := vshim.LockBalance(); b != 0 {
 			res.violate(violation{Class: "hang", Sig: "mutex acquisitions and releases do not balance at a quiescent point", Msg: fmt.Sprintf("lock ledger = %d after round %d", b, i), Case: map[string]any{"case_index": i}})
@@ -142,6 +144,81 @@ func runTerm(a *args, res *result) {
 		res.nontrivial(fp.sum())
 	}
 	res.sample(map[string]any{"families": []string{"return-path sweep (maps)", "return-path sweep (caches)", "stress + sweep", "re-entrant visitors/callbacks"}, "per_call_step_budget": opBudget})
+}
+
+// singleResizeRound: writers hammer a fixed key set while the main goroutine
+// performs exactly ONE table replacement (a Clear, or one batch of inserts that
+// grows the table once). Writers that observe the resize in progress wait for
+// it; since no further resize follows, a wake-up lost at the end of that single
+// resize leaves them waiting forever (step budget / deadlock detector).
+func singleResizeRound(r rng, res *result, idx int64) {
+	polling := r.chance(0.5)
+	level := pick(r, []int{1, 2, 2, 3})
+	focus := pick(r, []vshim.Kind{vshim.KCondWait, vshim.KCondWait, vshim.KBroadcast, vshim.KAfterStore, vshim.KLock, vshim.NKinds})
+	procs := pick(r, []int{2, 4, 16, 16})
+	writers := r.between(3, 14)
+	nk := pick(r, []int{8, 40, 70})
+	var store func(k int, v any)
+	var clear func()
+	var sweep func()
+	name := ""
+	if r.chance(0.65) {
+		sp := mapSpec{Flavor: pick(r, mapFlavors[:4]), Hint: noHint, NKeys: 2048}
+		m := newMap(sp)
+		store, clear, name = m.Store, m.Clear, specName(sp)
+		sweep = func() { sweepMap(m, 300) }
+	} else {
+		vshim.SetVNow(epoch)
+		sp := cacheSpec{Flavor: pick(r, cacheFlavors), Ctor: "New", OptMask: 1 | 2, DefExp: time.Hour, Interval: 0, NKeys: 2048}
+		c := newCache(sp)
+		store, clear, name = func(k int, v any) { c.Set(k, v, time.Hour) }, c.Clear, sp.Flavor
+		sweep = func() { sweepCache(c, 300) }
+	}
+	useClear := r.chance(0.5)
+	logCase("term round %d single-resize: %s writers=%d keys=%d clear=%v level=%d focus=%d procs=%d polling=%v", idx, name, writers, nk, useClear, level, focus, procs, polling)
+	for k := 0; k < nk; k++ {
+		store(k, nextVal(k))
+	}
+	mode := vshim.MCount | vshim.MBudget | vshim.MPerturb
+	if polling {
+		mode |= vshim.MPoll
+	}
+	vshim.SetPerturb(level, focus)
+	old := runtime.GOMAXPROCS(procs)
+	vshim.ResetLive()
+	vshim.SetMode(mode)
+	var wg sync.WaitGroup
+	start := make(chan struct{})
+	for w := 0; w < writers; w++ {
+		wg.Add(1)
+		go func(w int) {
+			defer wg.Done()
+			<-start
+			for j := 0; j < 120; j++ {
+				k := (w*7 + j) % nk
+				store(k, nextVal(k))
+				vshim.Progress()
+			}
+		}(w)
+	}
+	close(start)
+	for j := 0; j < 20; j++ {
+		runtime.Gosched()
+	}
+	if useClear {
+		clear()
+	} else {
+		// one batch that crosses the grow threshold exactly once
+		for k := 1000; k < 1000+80-nk+10; k++ {
+			store(k, nextVal(k))
+		}
+	}
+	vshim.Progress()
+	wg.Wait()
+	vshim.SetMode(0)
+	runtime.GOMAXPROCS(old)
+	res.count("single_resize_rounds", 1)
+	sweep()
 }
 
 // ---- re-entrancy ----
